@@ -699,4 +699,69 @@ theorem iso_roundtrip (t : Int) (hy0 : 0 ≤ Spec.YearFromTime t) (hy1 : Spec.Ye
       show ((Spec.msFromTime t).toNat : Int) = Spec.msFromTime t by omega]
   rw [if_neg (by omega), make_compose, makeDay_roundtrip, makeTime_roundtrip, makeDate_roundtrip]
 
+-- ---------------------------------------------------------------- Date.UTC wrapper on integral doubles
+
+
+theorem add1900_fin : ∀ y : Fin 100, OttoVerif.C05.goInt64 (add (.fin false y.val 0) (.fin false 1900 0)) = (y.val : Int) + 1900 := by
+  decide +kernel
+
+theorem le_fvInt (a b : Int) : le (fvInt a) (fvInt b) = decide (a ≤ b) := by
+  have key : cmpReal (fvInt a) (fvInt b) = some (if a < b then .lt else if a = b then .eq else .gt) := by
+    unfold fvInt cmpReal alignInt
+    have ea : (if decide (a < 0) = true then -((a.natAbs * 2 ^ ((0:Int) - (if (0:Int) ≤ 0 then 0 else 0)).toNat : Nat) : Int) else ((a.natAbs * 2 ^ ((0:Int) - (if (0:Int) ≤ 0 then 0 else 0)).toNat : Nat) : Int)) = a := by
+      by_cases h : a < 0 <;> simp [h] <;> omega
+    have eb : (if decide (b < 0) = true then -((b.natAbs * 2 ^ ((0:Int) - (if (0:Int) ≤ 0 then 0 else 0)).toNat : Nat) : Int) else ((b.natAbs * 2 ^ ((0:Int) - (if (0:Int) ≤ 0 then 0 else 0)).toNat : Nat) : Int)) = b := by
+      by_cases h : b < 0 <;> simp [h] <;> omega
+    simp only [ea, eb]
+  unfold le
+  rw [key]
+  by_cases h1 : a < b
+  · simp [h1]; omega
+  · by_cases h2 : a = b
+    · simp [h2]
+    · simp [h1, h2]; omega
+
+theorem pick_fvInt (v : Int) : (isNaN (fvInt v) || isInf (fvInt v)) = false := rfl
+
+theorem year_adjust (y : Int) (hr : y.natAbs < 2^53) :
+    OttoVerif.C05.goInt64 (if (le zero (fvInt y) && le (fvInt y) (.fin false 99 0)) = true then add (fvInt y) (.fin false 1900 0) else fvInt y) = Spec.fullYear y := by
+  have e0 : zero = fvInt 0 := rfl
+  have e99 : (FV.fin false 99 0) = fvInt 99 := rfl
+  rw [e0, e99, le_fvInt, le_fvInt]
+  unfold Spec.fullYear
+  by_cases h : 0 ≤ y ∧ y ≤ 99
+  · have h1 := h.1; have h2 := h.2
+    simp only [h1, h2, decide_true, Bool.and_self, if_true, and_self]
+    have := add1900_fin ⟨y.toNat, by omega⟩
+    simp only [] at this
+    have ey : fvInt y = .fin false y.toNat 0 := by
+      unfold fvInt; congr 1
+      · simp; omega
+      · omega
+    rw [ey, this]; omega
+  · have : ¬ (decide (0 ≤ y) && decide (y ≤ 99)) = true := by simp; omega
+    simp only [this, h, if_false]
+    exact goInt64_small y hr
+
+/-- Date.UTC(y, m, …) with 2..7 integral arguments, through the float64 wrapper -/
+theorem dateUTC_int (vs : List Int) (h2 : 2 ≤ vs.length) (h7 : vs.length ≤ 7) (hsm : ∀ v ∈ vs, v.natAbs < 2^53) :
+    newDateTime (vs.map ofInt) = Spec.dateUTCRaw (vs.map ofInt) := by
+  rw [map_ofInt_small vs hsm]
+  have g : ∀ v ∈ vs, OttoVerif.C05.goInt64 (fvInt v) = v := fun v hv => goInt64_small v (hsm v hv)
+  have ya : ∀ v ∈ vs, OttoVerif.C05.goInt64 (if le zero (fvInt v) = true ∧ le (fvInt v) (.fin false 99 0) = true then add (fvInt v) (.fin false 1900 0) else fvInt v) = Spec.fullYear v := by
+    intro v hv
+    have := year_adjust v (hsm v hv)
+    simp only [Bool.and_eq_true] at this
+    exact this
+  have mc0 : ∀ y m d h mi s : Int, goUnixMilli (goDate y (m + 1) d h mi s 0) = Spec.MakeDate (Spec.MakeDay y m d) (Spec.MakeTime h mi s 0) := by
+    intro y m d h mi s
+    have := make_compose y m d h mi s 0
+    simpa using this
+  have z0 : OttoVerif.C05.goInt64 zero = 0 := by decide
+  have o1 : OttoVerif.C05.goInt64 one = 1 := by decide
+  rcases vs with _ | ⟨a, _ | ⟨b, _ | ⟨c, _ | ⟨d, _ | ⟨e, _ | ⟨f, _ | ⟨g', _ | ⟨x, rest⟩⟩⟩⟩⟩⟩⟩⟩ <;> simp at h2 h7
+  all_goals
+    simp only [List.mem_cons, List.mem_nil_iff, or_false, forall_eq_or_imp, forall_eq] at g ya
+    simp [newDateTime, Spec.dateUTCRaw, pick_fvInt, field_fvInt, dateCore, make_compose, mc0, g, ya, z0, o1]
+
 end OttoVerif.C12.Lem
